@@ -62,10 +62,13 @@ def alloc_generator(spec):
         if k >= spec["kmax"]:
             return [0] * n
         row = []
+        satisfied = rng.random() < 0.45              # no level asks for more: the bias test is reached
         for l in range(n):
             cur = sh.draws.get(l, 0)
             u = rng.random()
-            if cur == 0 and l > spec["L0"]:          # a level that has just been added
+            if satisfied and not (cur == 0 and l > spec["L0"]):
+                row.append(max(0, cur - rng.randint(0, 1)) if mode != "pct" else cur + rng.choice([-2, 0, 0, 1]))
+            elif cur == 0 and l > spec["L0"]:        # a level that has just been added
                 row.append(rng.choice([0, 1, 1, 2, 3, 5, 7]))
             elif mode == "pct":
                 row.append(cur + rng.choice([-3, 0, 0, 1, 1, 2, 3, 10]))
